@@ -1,31 +1,88 @@
+LEAK = ["-Z", "unstable-options", "--cbmc-args", "--memory-leak-check"]   # must stay last: --cbmc-args takes the rest
+
+
 def H(name, clause, kind="complete", tier="quick", timeout=600, replay=True, covers=0, module=None, **kw):
     d = dict(name=name, obligation=f"C14/kani/{name}", clause=clause, kind=kind, tier=tier, timeout=timeout, replay=replay, covers=covers)
     if module: d["module"] = module
     d.update(kw)
     return d
 
+
+STEPS = "steps drawn from {clone, into_owned + from_owned again, drop, swap}; after every step the live values are read back"
+SEQ_STR = ("content reads back after every step; clone: shared => same pointer and strong count + 1, owned => fresh allocation, borrowed => bit copy; "
+           "into_owned: owned => the SAME allocation (pointer, capacity) comes back, shared => reference given back; drop: shared => count - 1; "
+           "at the end the Arc strong count is back to 1; no leak (CBMC memory-leak check), no use-after-free / double free / out-of-bounds (CBMC pointer checks)")
+SEQ_SLICE = SEQ_STR + "; element accounting: clones made exactly when a deep copy is due, every owned element dropped exactly once, borrowed / still-shared elements never dropped"
+
+
+def seq(ty, cls, what, bound, tier="quick", suffix="", timeout=600):
+    return H(f"c14_{ty}_{cls}{suffix}", f"{ty} built {what}: " + (SEQ_STR if ty == "str" else SEQ_SLICE), kind="bounded",
+             bound=bound + "; " + STEPS, covers=2, tier=tier, timeout=timeout, args=LEAK)
+
+
 PLAN = {
     "property": "C14",
     "level": "model_checking",
-    "manifest": {"technique": "draft", "text": "draft", "note": "draft"},
-    "min_obligations": {"quick": 0, "thorough": 0},
-    "assumptions": [],
+    "manifest": {
+        "technique": "Kani/CBMC: complete (full-domain, loop-free) contracts for Metadata::kind, Cow::from_owned's capacity guard and the generic Cow<T> plumbing against a call-counting Cowable double; bounded model checking of every operation sequence of length <= 2 (quick) / 3 (thorough) on the real Cowable for str and Cowable for [T] (T with a drop-recording destructor), with CBMC's pointer checks and --memory-leak-check as obligations",
+        "text": "Complete: Metadata::kind is Shared <=> cap == usize::MAX, Borrowed <=> cap == 0, else Owned, for all (len, cap); Cow::from_owned panics exactly when capacity == usize::MAX (also through a real Vec<()>); the generic Cow<T> code (from_borrowed / from_owned / from_shared, clone, deref, into_owned, into std::borrow::Cow, drop) hands every set of raw parts to exactly one of {owned_from_parts, drop_from_parts} -- never none (leak) and never both (double free) -- for all metadata and all 2-step sequences.  Bounded: on the real str and [T] implementations every sequence of <= 2 (thorough: 3) steps from {clone, into_owned + re-wrap, drop, swap} after each of the 8 (str) / 6 (slice) constructors reads back exactly the model content through every observer (deref, as_ref, borrow, ==, cmp, partial_cmp, Hash), returns Arc strong counts to their initial value, drops each owned element exactly once and never a borrowed / shared one, hands back the same allocation from into_owned of an owned value, passes CBMC's dereference / bounds / double-free checks and ends with no dynamically allocated memory left (memory-leak check).  The decisive ownership obligations on the real impls are bounded => model_checking.",
+        "note": "Bounds: str content in {'', 'a', 'a\\u00e9'}, slices of 0 / 1 / 3 elements, capacity == len, len + 1 or grown, sequences of <= 2 steps (quick) / 3 steps (thorough, non-empty content).  Send / Sync: only the compile-time fact that Cow<'static, str> and Cow<'static, [Label]> are Send + Sync is pinned; dropping on another thread is not modelled (Kani has no threads) -- the `unsafe impl`s are bounded by T: Send / T: Sync, checked by inspection.  `From<Cow<'a, T>> for std::borrow::Cow<'a, T>` requires T: Sized, so it cannot be instantiated with str or [T] (the only Cowable impls); it is exercised through a Sized test double.  Arc::increment_strong_count overflow (> isize::MAX clones) aborts in std, not modelled.",
+    },
+    "min_obligations": {"quick": 6, "thorough": 6},
+    "assumptions": [
+        "std's Vec / String / Arc raw-parts APIs behave as documented (from_raw_parts, into_raw, from_raw, increment_strong_count); they are executed by CBMC from the real std source, not stubbed",
+        "bounded part: str content in {'', 'a', 'a\\u00e9'}; slice lengths 0, 1, 3; capacity == len, len + 1 or grown; operation sequences of <= 2 steps (quick), 3 steps (thorough); longer sequences follow informally because each step re-establishes the same representation invariant (kind / pointer / len / capacity describe a live allocation or Arc reference owned by exactly one Cow)",
+        "the generic-plumbing harnesses use a Sized Cowable test double (`Fake`) whose *_into_parts / *_from_parts only count calls: they check Cow<T>'s own code, which is generic in T",
+        "threads: sending to / dropping on another thread is not modelled; Send/Sync impls are conditional on T: Send/Sync (inspection); Cow<'static, str> and Cow<'static, [Label]> are asserted Send + Sync at compile time",
+        "panic = failure; unwinding (a panic in T::clone during a deep copy) is not modelled",
+        "the memory-leak obligation is CBMC's --memory-leak-check (passed through `-Z unstable-options --cbmc-args`)",
+    ],
     "kani": [{
         "crate": "metrics",
         "parallel": 4,
         "modules": [
             {"file": "metrics/src/cow.rs", "mod": "__verif_c14", "src": "cow.kani.rs"},
         ],
-        "functions": [],
+        "functions": [
+            {"item": "Metadata::{kind, len, capacity, borrowed, owned, shared}", "file": "metrics/src/cow.rs"},
+            {"item": "Cow::{from_parts, from_owned, from_shared, from_borrowed, const_str, const_slice, into_owned}", "file": "metrics/src/cow.rs"},
+            {"item": "<Cow as Deref>::deref, <Cow as Clone>::clone, <Cow as Drop>::drop, Hash / PartialEq / PartialOrd / Ord / AsRef / Borrow for Cow", "file": "metrics/src/cow.rs"},
+            {"item": "From<&T>, From<Arc<T>>, From<String>, From<Vec<T>>, From<std::borrow::Cow<str>> for Cow; From<Cow<T>> for std::borrow::Cow<T>", "file": "metrics/src/cow.rs"},
+            {"item": "<str as Cowable>::{borrowed_into_parts, owned_into_parts, shared_into_parts, borrowed_from_parts, owned_from_parts, clone_from_parts, drop_from_parts}", "file": "metrics/src/cow.rs"},
+            {"item": "<[T] as Cowable>::{borrowed_into_parts, owned_into_parts, shared_into_parts, borrowed_from_parts, owned_from_parts, clone_from_parts, drop_from_parts}, clone_shared", "file": "metrics/src/cow.rs"},
+        ],
         "harnesses": [
-            H("c14_metadata_kind", "Shared <=> cap == MAX, Borrowed <=> cap == 0, else Owned, for all (len, cap)", covers=3),
-            H("c14_from_owned_accepts", "from_owned keeps any parts with cap != MAX unchanged and releases them once", covers=2),
-            H("c14_from_owned_rejects_max", "from_owned panics when cap == MAX", replay=False),
-            H("c14_from_owned_rejects_zst_vec", "from_owned(Vec<()>) panics", replay=False),
-            H("c14_generic_release_once", "generic paths release each set of parts exactly once", covers=2),
-            H("c14_str_borrowed", "str borrowed", kind="bounded", bound="len<=3, 3 ops", covers=2),
-            H("c14_str_owned", "str owned", kind="bounded", bound="len<=3, cap<=4, 2 ops", covers=2),
-            H("c14_str_shared", "str shared", kind="bounded", bound="len<=3, 2 ops", covers=2),
+            # ---- complete
+            H("c14_metadata_kind", "Shared <=> cap == MAX, Borrowed <=> cap == 0, else Owned, for all (len, cap); constructors produce the advertised kind/len", covers=3),
+            H("c14_from_owned_accepts", "from_owned keeps any parts with cap != MAX unchanged, creates one set of parts and releases it exactly once on drop, for all (len, cap)", covers=2),
+            H("c14_from_owned_rejects_max", "from_owned panics when capacity == usize::MAX (symbolic len: should_panic is existential, the two Vec<()> harnesses pin len 0 and 5)", replay=False, should_panic=True),
+            H("c14_from_owned_rejects_zst_vec", "from_owned(Vec<()>) (real capacity usize::MAX) panics", replay=False, should_panic=True),
+            H("c14_from_owned_rejects_zst_vec5", "from_owned(vec![(); 5]) panics (guard independent of len)", replay=False, should_panic=True),
+            H("c14_generic_release_once", "for every constructor and every 2-step sequence of {clone, into_owned, into std Cow, drop, deref} the generic code passes each set of parts to exactly one of owned_from_parts / drop_from_parts; created == released at the end, for all metadata", covers=2, args=LEAK),
+            # ---- bounded, real str / [T]
+            H("c14_str_read", "every str constructor (from_borrowed, const_str, From<std Cow> x2, From<String>, with_capacity, grown, from_shared, From<Arc>) x content: deref / as_ref / borrow / == / cmp / partial_cmp / Hash agree with the model; drop restores the Arc count",
+              kind="bounded", bound="content in {'', 'a', 'a\\u00e9'}; no intermediate steps", covers=3, args=LEAK),
+            H("c14_slice_read", "every slice constructor (from_borrowed, const_slice, with_capacity, From<Vec>, from_shared, From<Arc>) x len: reads back, observers agree, element accounting exact",
+              kind="bounded", bound="len in {0, 1, 3}; no intermediate steps", covers=4, args=LEAK),
+            seq("str", "borrowed", "from a borrow (3 ctors)", "content 'a\\u00e9'; all 16 two-step sequences"),
+            seq("str", "owned", "from an owned String (capacity == len, len + 1, grown)", "content 'a\\u00e9'; all 16 two-step sequences"),
+            seq("str", "shared", "from an Arc<str> (2 ctors)", "content 'a\\u00e9'; all 16 two-step sequences"),
+            seq("slice", "borrowed", "from a borrowed slice (2 ctors)", "3 elements; all 16 two-step sequences"),
+            seq("slice", "owned", "from an owned Vec (capacity == len, len + 1)", "3 elements; all 16 two-step sequences"),
+            seq("slice", "shared", "from an Arc<[T]> (2 ctors)", "3 elements; all 16 two-step sequences"),
+            # ---- thorough
+            seq("str", "borrowed", "from a borrow", "content in {'', 'a'}; all 16 two-step sequences", "thorough", "_all", 900),
+            seq("str", "owned", "from an owned String", "content in {'', 'a'}; all 16 two-step sequences", "thorough", "_all", 900),
+            seq("str", "shared", "from an Arc<str>", "content in {'', 'a'}; all 16 two-step sequences", "thorough", "_all", 900),
+            seq("slice", "borrowed", "from a borrowed slice", "0 or 1 element; all 16 two-step sequences", "thorough", "_all", 900),
+            seq("slice", "owned", "from an owned Vec", "0 or 1 element; all 16 two-step sequences", "thorough", "_all", 900),
+            seq("slice", "shared", "from an Arc<[T]>", "0 or 1 element; all 16 two-step sequences", "thorough", "_all", 900),
+            seq("str", "borrowed", "from a borrow", "content 'a\\u00e9'; all 64 three-step sequences", "thorough", "_3ops", 900),
+            seq("str", "owned", "from an owned String", "content 'a\\u00e9'; all 64 three-step sequences", "thorough", "_3ops", 900),
+            seq("str", "shared", "from an Arc<str>", "content 'a\\u00e9'; all 64 three-step sequences", "thorough", "_3ops", 900),
+            seq("slice", "borrowed", "from a borrowed slice", "3 elements; all 64 three-step sequences", "thorough", "_3ops", 900),
+            seq("slice", "owned", "from an owned Vec", "3 elements; all 64 three-step sequences", "thorough", "_3ops", 900),
+            seq("slice", "shared", "from an Arc<[T]>", "3 elements; all 64 three-step sequences", "thorough", "_3ops", 900),
         ],
     }],
 }
